@@ -300,7 +300,9 @@ func propC04(r *kernel.Run) {
 				fail("node", "node-credentials-unloadable", "%v", lerr)
 			}
 			var herr error
-			if p, msg, site := kernel.Guard(func() { _, herr = c2.HandleFetchNodeCredentialsResponse(nodeW.Ctx, nodeW.Storage, bad, nodeW.Opts(nodeOpts...)...) }); p {
+			if p, msg, site := kernel.Guard(func() {
+				_, herr = c2.HandleFetchNodeCredentialsResponse(nodeW.Ctx, nodeW.Storage, bad, nodeW.Opts(nodeOpts...)...)
+			}); p {
 				fail("no-panic", "node-handle-panic/"+site, "%s", msg)
 			}
 			if herr == nil {
